@@ -920,8 +920,9 @@ struct LinkObj {
     img: Image,
 }
 
-fn gen_link_set(rng: &mut Rng) -> (Vec<LinkObj>, Vec<(usize, u64, String)>) {
-    let combo = *rng.pick(&[COMBOS[0], COMBOS[2], COMBOS[3]]);
+fn gen_link_set(rng: &mut Rng, id: u64) -> (Vec<LinkObj>, Vec<(usize, u64, String)>) {
+    // i386, mips, mipsel in turn (the machines ElfLinker relocates)
+    let combo = [COMBOS[0], COMBOS[2], COMBOS[3]][(id % 3) as usize];
     let mips = combo.machine == EM_MIPS;
     let exe_region: u64 = if mips { 0x40_0000 } else { 0x0804_8000 };
     let lib_region: u64 = 0x1000 * rng.range(1, 8);
@@ -1013,7 +1014,7 @@ fn link_session(out: &mut Out, id: u64, dir: &str, objs: &[(String, Vec<u8>, Val
 
 fn mode_link(out: &mut Out, n: u64, dir: &str, rng: &mut Rng) {
     for id in 0..n {
-        let (objs, relocs) = gen_link_set(rng);
+        let (objs, relocs) = gen_link_set(rng, id);
         let mut packed = Vec::new();
         let mut rel_json = Vec::new();
         let mut free = Vec::new();
@@ -1068,7 +1069,7 @@ fn mode_dump(out: &mut Out, n: u64, dir: &str, rng: &mut Rng) {
     }
     // and the objects of a few linked sets (dynamic sections, relocations, MIPS GOT)
     for id in 0..(n / 4 + 3) {
-        let (objs, _) = gen_link_set(rng);
+        let (objs, _) = gen_link_set(rng, id);
         for o in &objs {
             let wr = write_elf(&o.img);
             let p = format!("{}/l{}-{}", dir, id, o.name);
